@@ -26,6 +26,11 @@ ASSUMPTIONS = [
     "stays suspended until the history ends; a reader object may be constructed early (before earlier runs) but a "
     "writer is constructed when its run starts, because a validator that is constructed, then left idle while "
     "another run uses the same Cid, shares the Cid's check state by design",
+    "close placement 'late': a run that was stepped at least once may be closed while the next run is under way; its "
+    "own close verdict is then not compared (it legitimately sees the later run's state), but the run under way must "
+    "not be disturbed",
+    "prepass: the same Reader object may have been iterated before (one row or completely); the judged pass must equal "
+    "a first pass of a new Reader",
     "outcome = returned rows, rejections (class, location, see-also, message), raised exception, close() verdict, "
     "accepted/rejected counters, writer output bytes",
     "the fresh-CID side is the same real code; only the history differs",
@@ -35,7 +40,7 @@ COMPONENTS = {
              "cutplace.rowio readers and writers", "csv", "io.TextIOWrapper/BufferedReader/BufferedWriter"],
     "stub": ["SimFS/SimRaw raw file layer with seeded short reads/writes", "scheduler-driven client"],
 }
-PROBES_REQUIRED = ["reader-created-before-earlier-runs", "writer-after-reader", "reader-after-writer", "abandoned-then-next-run", "never-closed-then-next-run",
+PROBES_REQUIRED = ["earlier-run-closed-while-next-run-under-way", "second-pass-on-the-same-reader", "reader-created-before-earlier-runs", "writer-after-reader", "reader-after-writer", "abandoned-then-next-run", "never-closed-then-next-run",
                    "prev-ended-in-error", "shared-key-across-runs"]
 
 SEPS = [":", "...", "…"]
@@ -96,11 +101,12 @@ def generate(seed, tier):
                         "api": rng.choice(["Reader", "Reader", "rows", "rows", "validate", "validate_rows"]),
                         "mode": rng.choice(["raise", "yield", "continue"]),
                         "stop_after": stop_after,
-                        "close": rng.choice(["now", "now", "never"]),
+                        "close": rng.choice(["now", "now", "never", "late"]),
                         "source": rng.choice(["path", "stream"]),
-                        "create": rng.choice(["late", "late", "early"])})
+                        "create": rng.choice(["late", "late", "early"]),
+                        "prepass": rng.choice([None, None, None, 1, -1])})
         else:
-            ops.append({"op": "write", "data": data, "close": rng.random() < 0.7,
+            ops.append({"op": "write", "data": data, "close": rng.choice([True, True, True, False, "late"]),
                         "target": rng.choice(["path", "stream"])})
     return {"io": simfs.IoConfig.draw(swarm), "cid": spec, "datasets": datasets, "ops": ops}
 
@@ -182,31 +188,70 @@ class _World(object):
             if op["op"] == "read" and op.get("create") == "early":
                 self.early[index] = self.create_read(op)
 
+    def close_late_ones(self):
+        """Runs of earlier ops whose owner only now gets around to closing them - while another run is under
+        way.  Their own verdict is of no interest any more; the run under way must not notice."""
+        pending, self.late = getattr(self, "late", []), []
+        for run in pending:
+            lib.call(run.close)
+
     def run_op(self, index, op):
         if op["op"] == "read":
             run = getattr(self, "early", {}).get(index) or self.create_read(op)
+            prepass = op.get("prepass")
+            if op.get("stop_after") == 0:
+                prepass = None  # a judged pass that never starts would just be the earlier pass under another name
+            if prepass is not None and run.api == "Reader" and op.get("source", "path") == "path":
+                # the same Reader object has been iterated before (one row, or completely)
+                def first_pass():
+                    taken = 0
+                    for _ in run.reader.rows():
+                        taken += 1
+                        if prepass >= 0 and taken >= prepass:
+                            break
+
+                lib.call(first_pass)  # however it ends (raise mode may stop it with the first rejection)
+                run.generator = run.reader.rows()
             stop_after = op.get("stop_after")
             steps = 0
             while (stop_after is None or steps < stop_after) and run.step():
                 steps += 1
+                if steps == 1:
+                    self.close_late_ones()
+            self.close_late_ones()
             if op.get("close", "now") == "now":
                 run.close()
+            elif op.get("close") == "late" and steps > 0:
+                self.late = getattr(self, "late", []) + [run]
+                self.keep.append(run)
             else:
                 self.keep.append(run)
             outcome = run.outcome()
             outcome["abandoned"] = not run.finished
+            if steps == 0:
+                outcome["counters"] = None  # the judged pass never started: the counters are not about it
+            if op.get("close") == "late":
+                outcome["closed"] = None
             return outcome
         target = "out%d.txt" % index if op.get("target", "path") == "path" else "<stream>"
         run = lib.WriteRun(self.cid, self.fs, target)
         if run.writer is not None:
-            for row in self.scenario["datasets"][op["data"]]:
+            for number, row in enumerate(self.scenario["datasets"][op["data"]]):
                 run.write_row(row)
-            if op.get("close", True):
+                if number == 0:
+                    self.close_late_ones()
+            self.close_late_ones()
+            if op.get("close", True) is True:
                 run.close()
+            elif op.get("close") == "late" and run.results:
+                self.late = getattr(self, "late", []) + [run]
+                self.keep.append(run)
             else:
                 self.keep.append(run)
         outcome = run.outcome()
-        if not op.get("close", True) and target != "<stream>":
+        if op.get("close", True) is not True:
+            outcome["closed"] = None
+        if op.get("close", True) is not True and target != "<stream>":
             # what an unclosed writer has flushed to storage so far depends on buffer sizes and the
             # chunk schedule, not on the CID: not part of the compared outcome
             outcome["output"] = None
@@ -227,7 +272,7 @@ def _check_state(cid):
 
 def _kind(op):
     if op["op"] == "write":
-        return "write" + ("" if op.get("close", True) else "-unclosed")
+        return "write" + ("" if op.get("close", True) is True else "-unclosed")
     return "read"
 
 
@@ -253,7 +298,8 @@ def execute(scenario):
         fresh = _World(scenario)
         with simfs.Seams(fresh.fs):
             fresh.load()
-            outcome = fresh.run_op(index, op)
+            # the same run on a freshly loaded Cid: a new reader's first pass, nothing else going on
+            outcome = fresh.run_op(index, dict(op, prepass=None) if op["op"] == "read" else op)
         fresh.keep.clear()
         fresh_outcomes.append(outcome)
         history.add("client", "fresh-op", {"index": index, "outcome": outcome})
@@ -279,6 +325,10 @@ def execute(scenario):
                 result.probe("abandoned-then-next-run")
             if previous.get("close") in ("never", False):
                 result.probe("never-closed-then-next-run")
+            if previous.get("close") == "late":
+                result.probe("earlier-run-closed-while-next-run-under-way")
+            if op.get("prepass") is not None and op.get("api") == "Reader" and op.get("source") == "path":
+                result.probe("second-pass-on-the-same-reader")
             if previous_outcome.get("raised") or (previous_outcome.get("closed") not in (None, "ok")):
                 result.probe("prev-ended-in-error")
             if keys & seen_keys:
@@ -290,7 +340,7 @@ def execute(scenario):
     result.nontrivial = len(ops) >= 2 and touched_rows
     spec = scenario["cid"]
     result.schedule_sig = [spec["format"], spec.get("header", 0)] + [
-        [_kind(op), op.get("api"), op.get("mode"), op.get("create"),
+        [_kind(op), op.get("api"), op.get("mode"), op.get("create"), op.get("prepass"),
          "all" if op.get("stop_after") is None else ("zero" if op["stop_after"] == 0 else "mid"),
          str(op.get("close")), op.get("source") or op.get("target")] for op in ops]
     result.state_sigs = [list(state) for state in states]
@@ -329,7 +379,8 @@ def candidates(scenario):
     if scenario["cid"]["format"] != "delimited":
         yield lib.with_value(scenario, ["cid", "format"], "delimited")
     for index, op in enumerate(scenario["ops"]):
-        simple = {"api": "Reader", "mode": "raise", "stop_after": None, "close": "now", "source": "path", "create": "late"} \
+        simple = {"api": "Reader", "mode": "raise", "stop_after": None, "close": "now", "source": "path", "create": "late",
+                  "prepass": None} \
             if op["op"] == "read" else {"close": True, "target": "path"}
         for key, value in simple.items():
             if op.get(key) != value:
